@@ -14,6 +14,8 @@ type GenOpts struct {
 	PParamObj                                   int
 	PResultKey, PResultGroup, PResultIface      int
 	PBuiltinDep, PGroupDep, POptionalMissing    int
+	POptionalReg                                int // parameter-object field on a registered service tagged optional
+	PEmbedType                                  int // an output uses a method-less type (embeddable in parameter objects)
 	PIgnored                                    int
 	MaxDeps                                     int
 	PDisposable                                 int // probability an output type is a D type
@@ -62,7 +64,7 @@ func defaultGen() GenOpts {
 		PName: 150, PGroup: 200, PAs: 200, PAs2: 250,
 		PParamObj:  400,
 		PResultKey: 250, PResultGroup: 150, PResultIface: 250,
-		PBuiltinDep: 100, PGroupDep: 300, POptionalMissing: 100, PIgnored: 60,
+		PBuiltinDep: 100, PGroupDep: 300, POptionalMissing: 100, PIgnored: 60, POptionalReg: 100, PEmbedType: 80,
 		MaxDeps:     3,
 		PDisposable: 500,
 		PReuseType:  150, PSingleIface: 120, PStaticKind: 350,
@@ -138,6 +140,11 @@ func (g *gen) genConfig() *Config {
 	var idents []avail
 	pickConcrete := func() TypeRef {
 		var base, span int
+		if g.p(StCfg, o.PEmbedType) {
+			k := g.n(StCfg, NE)
+			usedConcrete[int(embedRef(k))] = true
+			return embedRef(k)
+		}
 		if g.p(StCfg, o.PDisposable) {
 			base, span = NT, ND
 		} else {
@@ -205,7 +212,7 @@ func (g *gen) genConfig() *Config {
 			ct := pickConcrete()
 			out := Out{T: ct, Concrete: ct}
 			if r.Form == FResult || r.Form == FResultErr {
-				if g.p(StCfg, o.PResultIface) {
+				if !ct.IsEmbeddable() && g.p(StCfg, o.PResultIface) {
 					out.T = ifaceRef(g.n(StCfg, NI))
 				}
 				if g.p(StCfg, o.PResultKey) {
@@ -214,7 +221,7 @@ func (g *gen) genConfig() *Config {
 					out.Group = groupPool[g.n(StCfg, len(groupPool))]
 				}
 			}
-			if (r.Form == FSingle || r.Form == FSingleErr) && g.p(StCfg, o.PSingleIface) {
+			if (r.Form == FSingle || r.Form == FSingleErr) && !ct.IsEmbeddable() && g.p(StCfg, o.PSingleIface) {
 				out.T = ifaceRef(g.n(StCfg, NI))
 			}
 			r.Outs = append(r.Outs, out)
@@ -247,6 +254,11 @@ func (g *gen) genConfig() *Config {
 		}
 		if len(r.Outs) == 1 && r.Outs[0].T.IsIface() {
 			r.As = nil // the declared result type is already an interface; As would need it to implement another one
+		}
+		for _, out := range r.Outs {
+			if out.Concrete.IsEmbeddable() {
+				r.As = nil // method-less types implement no pool interface
+			}
 		}
 		// make non-group identities unique unless a duplicate is wanted
 		wantDup := g.p(StCfg, o.PDup)
@@ -305,7 +317,11 @@ func (g *gen) genConfig() *Config {
 		for j := 0; j < ndeps; j++ {
 			switch {
 			case g.p(StCfg, o.PBuiltinDep):
-				r.Deps = append(r.Deps, Dep{Builtin: 1 + g.n(StCfg, 3)})
+				d := Dep{Builtin: 1 + g.n(StCfg, 3)}
+				if r.ParamObj && g.p(StCfg, 300) {
+					d.Optional = true // optional:"true" on a built-in: there always is one, so it is filled in
+				}
+				r.Deps = append(r.Deps, d)
 			case r.ParamObj && g.p(StCfg, o.PIgnored):
 				r.Deps = append(r.Deps, Dep{T: TypeRef(g.n(StCfg, NT+ND)), Ignore: true})
 			case r.ParamObj && g.p(StCfg, o.POptionalMissing):
@@ -335,8 +351,19 @@ func (g *gen) genConfig() *Config {
 					d.Group = a.id.Group
 					d.Key = ""
 				}
-				if r.ParamObj && !a.group && g.p(StCfg, 100) {
+				if r.ParamObj && !a.group && g.p(StCfg, o.POptionalReg) {
 					d.Optional = true
+				}
+				if r.ParamObj && !a.group && a.id.T.IsEmbeddable() {
+					dupEmbed := false
+					for _, x := range r.Deps {
+						if x.Embed && x.T == a.id.T {
+							dupEmbed = true
+						}
+					}
+					if !dupEmbed && g.p(StCfg, 650) {
+						d.Embed = true
+					}
 				}
 				r.Deps = append(r.Deps, d)
 			}
